@@ -67,7 +67,7 @@ type pieceClass struct {
 var pathPieces = []pieceClass{
 	{"alnum", 30, nil},
 	{"mark", 6, []string{"-", "_", ".", "~"}},
-	{"subdelim-listed", 14, []string{"=", "&", ";", "+", "@", ":"}},
+	{"subdelim-listed", 12, []string{"=", "&", ";", "+", ":", "=", "&", ";", "+", ":", "@"}},
 	{"subdelim-other", 5, []string{"!", "*", "'", "(", ")", "$", ","}},
 	{"esc-canonical", 6, []string{"%20", "%25", "%3F", "%23", "%22", "%5B", "%21", "%7C"}},
 	{"esc-unreserved", 6, []string{"%41", "%7A", "%30", "%2D", "%7E", "%5F"}},
@@ -85,7 +85,7 @@ var queryValuePieces = []pieceClass{
 	{"q-slash", 10, []string{"/"}},
 	{"q-trackid", 8, []string{"trackID=", "/trackID=2", "trackID=0", "/trackID="}},
 	{"q-qmark", 5, []string{"?"}},
-	{"q-punct", 10, []string{"=", ":", "@", "+", ",", ";", "!", "*", ".", "-", "~"}},
+	{"q-punct", 10, []string{"=", ":", "+", ",", ";", "!", "*", ".", "-", "~", "=", ":", "+", ",", ";", "@"}},
 	{"q-escape", 10, []string{"%2F", "%41", "%20", "%3d", "%26", "%2f", "%3F"}},
 	{"q-utf8", 3, []string{"é", "%C3%A9"}},
 }
@@ -141,7 +141,7 @@ func genSegment(r *rand.Rand, canonical bool) string {
 		sb.WriteString(p)
 	}
 	// make the interesting combination '@' ... '%xx' inside one segment common enough
-	if !canonical && r.Intn(25) == 0 {
+	if !canonical && r.Intn(60) == 0 {
 		e, _ := pick(r, pathPieces[4:8])
 		sb.WriteString("@" + string(alnum[r.Intn(len(alnum))]) + e)
 	}
@@ -351,7 +351,12 @@ func atSignClass(urls ...string) bool {
 			auth = auth[i+1:]
 		}
 		bare := sch + "://" + auth + withQ(p, q, has)
-		for _, v := range []string{u, u + "/trackID=0", bare, bare + "/", bare + "/trackID=0"} {
+		vs := []string{u, u + "/trackID=0", bare, bare + "/", bare + "/trackID=0"}
+		// the spelling net/url gives the URL when the client writes it (classification only)
+		if pu, err := url.Parse(bare); err == nil {
+			vs = append(vs, pu.String(), pu.String()+"/", pu.String()+"/trackID=0")
+		}
+		for _, v := range vs {
 			if atBeforeEscape(v) {
 				return true
 			}
